@@ -41,6 +41,42 @@ def run_real(ops, budget_s=10.0):
         signal.signal(signal.SIGALRM, old)
 
 
+def _hit_limit(real, err):
+    if err == 'RecursionError':
+        return True
+    if real is None:
+        return False
+    for r in real:
+        try:
+            if len(r) > 2 and sx(r[2]) == 'oof':
+                return True
+        except TypeError:
+            pass
+    return False
+
+
+def run_real_robust(ops, rep=None):
+    """like run_real; when the interpreter's own recursion limit (1000 frames) ends a query, the
+    history is run again from scratch with a limit of 8000: no property promises that a deep but
+    finite structure (a result list of several hundred elements, say) fits into CPython's default
+    limit, and the model does not count frames. A search that is still cut at 8000 frames is
+    reported as it is (and judged: the model must then run out of fuel too)."""
+    import sys
+    real, err = run_real(ops)
+    if _hit_limit(real, err):
+        old = sys.getrecursionlimit()
+        sys.setrecursionlimit(max(old, 8000))
+        try:
+            real2, err2 = run_real(ops, budget_s=30.0)
+        finally:
+            sys.setrecursionlimit(old)
+        if not _hit_limit(real2, err2):
+            if rep is not None:
+                rep.count('interpreter-recursion-limit-rerun-with-8000')
+            return real2, err2
+    return real, err
+
+
 _T1_SEEN = {}
 
 
@@ -73,7 +109,7 @@ def three_way(rep, drv, ops, label, fuel=4000, skip_ref_ops=()):
     property violation, already reported), 'model' (real agrees with the reference on every
     observation but the model of the code does not), 'crash'."""
     rep.evaluations += 1
-    real, err = run_real(ops)
+    real, err = run_real_robust(ops, rep)
     texts = [S.program_text(op[2]) for op in ops if op[0] == 'load']
     if err is not None and err.startswith('timeout'):
         # not finishing is a violation only if the search is small: the model must finish it easily
